@@ -7,6 +7,7 @@ class C01(TieCheck):
     props = ["Props_C01.v", "Props_C01_spec.v", "Props_C01_lazy.v", "Props_C01_static.v", "Props_C01_e2e.v", "Props_C01_single.v", "Props_C09_e2e.v"]
     coq_targets = ["Corr.vo"]
     extra_props = [("Compose", "Props_Compose.v")]
+    gentie = "C01"
     harness = "c01"
     extra_trust = ["model M1: coq/Route/Lookup.v transliterates lookupByPath / lookupByDomain / roots.lookup (node.go:85-600) over pure trees (coq/Route/Node.v); specification S: coq/Route/Spec.v (matcher over the list of registered patterns)",
                    "the tree each case is evaluated on is the dump of the real router (verif_export.go); the stripped host is taken from netutil.StripHostPort (oracle input)"]
